@@ -105,6 +105,10 @@ def clear_all_memos():
             f = getattr(mod, name, None)
             if f is not None:
                 n += clear_memo(f)
+    # ... and whatever other tables the implementation keeps (a refactoring
+    # may move them): functools caches, closure dicts of any module-level
+    # function, module-level dicts that were empty at import
+    n += common.reset_lib_memos()
     return n
 
 
